@@ -112,6 +112,7 @@ func runC02(c *Ctx) {
 		c.Check("C02-R3", "rollback-writes-balance", rb.Pos(), bad == nil, "rollback can succeed without writing the mined balance")
 	}
 	runLoopCompleteness(c, "C02-R3", []string{"rollback", "removeDoubleSpends", "removeConflict", "deleteUnminedTx", "updateMinedBalance"})
+	checkLoopCarriedStructs(c, "C02-R3", []string{"rollback", "updateMinedBalance"})
 
 	// R4: disconnectBlock reaches Rollback
 	db := p.Func("wallet", "Wallet", "disconnectBlock")
@@ -120,6 +121,7 @@ func runC02(c *Ctx) {
 		c.Unresolved("C02-R4", "wallet.disconnectBlock / wtxmgr.Store.Rollback")
 	} else {
 		c.Check("C02-R4", "disconnectBlock-reaches-Rollback", db.Pos(), p.reachSet(db)[roll], "wallet.disconnectBlock no longer reaches Store.Rollback")
+		checkCoupledRollback(c, "C02-R4")
 		c.Check("C02-R4", "Rollback-reaches-rollback", roll.Pos(), p.reachSet(roll)[p.Func("wtxmgr", "Store", "rollback")], "Store.Rollback no longer reaches rollback")
 	}
 }
